@@ -356,10 +356,18 @@ pub fn check_c01(case: &ApplyCase, ex: &Exec, seen: &mut Seen) -> Vec<Violation>
 pub fn check_c20(case: &ApplyCase, seen: &mut Seen) -> (Vec<Violation>, usize) {
     let mut out = Vec::new();
     let mut execs = 0;
-    let limits = [0usize, 1, 2, 3, 4, 5, 10, 1000];
+    // the last three are limits no hunk can use: "unlimited" as a user would write it
+    let limits = [0usize, 1, 2, 3, 4, 5, 10, 1000, 1usize << 32, usize::MAX >> 1, usize::MAX];
     let mut base: Option<(usize, Vec<(Vec<HunkObs>, Snap)>)> = None;
     for &f in &limits {
-        let ex = match execute(case, Some(f), false) { Ok(e) => e, Err(_) => return (out, execs) };
+        let ex = match execute(case, Some(f), false) {
+            Ok(e) => e,
+            Err(ExecError::ApplyPanic { step, msg }) if base.is_some() => {
+                out.push(Violation::new("C20", "panics-with-higher-limit", format!("applies completely with limit {} but limit {} panics in step {}: {}", base.as_ref().unwrap().0, f, step, msg)));
+                return (out, execs);
+            }
+            Err(_) => return (out, execs),
+        };
         execs += 1;
         let all_ok = ex.steps.iter().all(|s| s.hunks.iter().all(|h| matches!(h, HunkObs::Applied { .. })));
         // creations and deletions report the limit itself as their fuzz; only real placements are compared
